@@ -23,7 +23,7 @@ CLAIMED = {
    "Ref.tla carries the user-visible life cycle of creators, consumers and gradients across epochs (backward / clear_graph / null_grad / re-use / in-place updates; a cleared tensor becomes a leaf - change of variables on the tangents). Multi-epoch programs (TLC-enumerated and random, incl. repeated identical iterations) are checked after every statement for: creator None and no recorded consumers upstream after backward, exact gradients in every epoch (no accumulation), gradient lifetime (gone at the next non-view use / in-place update / traversal, views too), and - with the cyclic GC disabled - that no Tensor or Operation object survives once it is unreachable from the caller's handles.",
    "explicit TLA+ reference checked with TLC; behaviour replay + trace validation incl. release and reference-counting clauses"),
  "C09": ("model_checking", "5 C09",
-   "Programs with several terminals over shared upstream tensors interleave backward, clear_graph, re-use, in-place updates and new ops before a final backward. The trace specification admits exactly two outcomes: InvalidBackprop (only if part of the graph was cleared after it was recorded) or gradients equal to the reference adjoint of the recorded computation truncated at cleared tensors. The known defect F-C09-1 is a named trigger predicate in Ref.tla. Histories that continue after a refusal are the decision table tables/Retry.tla (17 operations x order x gradients of the two attempts x re-use): every backward() is refused or exact for its own gradient.",
+   "Programs with several terminals over shared upstream tensors interleave backward, clear_graph, re-use, in-place updates and new ops before a final backward. The trace specification admits exactly two outcomes: InvalidBackprop (only if part of the graph was cleared after it was recorded) or gradients equal to the reference adjoint of the recorded computation truncated at cleared tensors. The known defect F-C09-1 is a named trigger predicate in Ref.tla. Histories that continue after a refusal are the decision table tables/Retry.tla (28 operations x order x gradients of the two attempts x re-use): every backward() is refused or exact for its own gradient.",
    "explicit TLA+ reference checked with TLC; behaviour replay + trace validation with admissible-failure rule"),
  "C10": ("model_checking", "5 C10",
    "Ref.tla gives constants no perturbation variables and implements the constant rule (all inputs constant unless the keyword is given; integer/boolean tensors always constant; in-place target keeps its flag). Programs with random constant flags, integer leaves, constant= keywords, plain arrays and Python scalars are checked for the flag of every result, for constant=False on integer results raising, for constants never holding a gradient and for exact gradients of all other tensors.",
